@@ -148,6 +148,9 @@ def check(prop, tier, seed):
     reasons += mod.floors(m, tier)
     if m['counters'].get('case_watchdog_fired', 0):
         reasons.append('%d cases exceeded the per-case watchdog (a watchdog is never a verdict)' % m['counters']['case_watchdog_fired'])
+    if m['counters'].get('shard_aborted_by_harness_error', 0):
+        reasons.append('%d shards aborted by a harness error: %s' % (m['counters']['shard_aborted_by_harness_error'], next(
+            (n['harness_error'].strip().split('\n')[-1] for n in m['notes'] if 'harness_error' in n), '?')))
     he = m['counters'].get('harness_errors', 0)
     if he > max(3, 0.01 * m['counters'].get('cases', 0)):
         reasons.append('%d harness errors (monitors could not cope with the observed behaviour); first: %s' % (
